@@ -1,5 +1,6 @@
 import Driver.PumpDrv
 import SaphyrVerif.Model.Entry
+import SaphyrVerif.Spec.Interp
 namespace Driver.E2E
 open Driver SaphyrVerif SaphyrVerif.Scalars SaphyrVerif.Budget SaphyrVerif.Pump SaphyrVerif.De SaphyrVerif.Entry
 
@@ -120,6 +121,22 @@ def handle : List String → String
     match parseCommon rest with
     | none => "bad-op"
     | some (cfg, p, ty, items) => resTok (fromSingle cfg ty p items)
+  | "spec" :: rest =>
+    -- the specification's answer for a single-document stream: pump everything, rebuild the tree, interpret it
+    match parseCommon rest with
+    | none => "bad-op"
+    | some (cfg, p, ty, items) =>
+      let (evs, step, p', _) := Pump.drain 1000000 p items []
+      match step with
+      | .error _ => "n/a"
+      | _ =>
+        if (Pump.finish p').1.isSome then "n/a" else
+        match Spec.treeOf (evs.map (·.1)) with
+        | none => "n/a"
+        | some t =>
+          match Spec.interp cfg ty t with
+          | some v => "ok " ++ valTok v
+          | none => "err"
   | "multi" :: rest =>
     match parseCommon rest with
     | none => "bad-op"
